@@ -292,6 +292,7 @@ bloom_filter_alloc<A> bloom_filter_alloc<A>::deserialize(std::istream& is, const
   const uint64_t seed = read<uint64_t>(is);
   const uint32_t num_longs = read<uint32_t>(is); // sized in java longs
   read<uint32_t>(is); // unused
+  if (!is.good()) throw std::runtime_error("error reading from std::istream");
 
   // if empty, stop reading
   if (is_empty) {
@@ -299,6 +300,7 @@ bloom_filter_alloc<A> bloom_filter_alloc<A>::deserialize(std::istream& is, const
   }
 
   const uint64_t num_bits_set = read<uint64_t>(is);
+  if (!is.good()) throw std::runtime_error("error reading from std::istream");
   const bool is_dirty = (num_bits_set == DIRTY_BITS_VALUE);
 
   // allocate memory
@@ -310,6 +312,10 @@ bloom_filter_alloc<A> bloom_filter_alloc<A>::deserialize(std::istream& is, const
     throw std::bad_alloc();
   }
   read(is, bit_array, num_bytes);
+  if (!is.good()) {
+    alloc.deallocate(bit_array, num_bytes);
+    throw std::runtime_error("error reading from std::istream");
+  }
 
   // pass to constructor
   return bloom_filter_alloc<A>(seed, num_hashes, is_dirty, true, false, static_cast<uint64_t>(num_longs) << 6, num_bits_set, bit_array, nullptr, allocator);
